@@ -15,6 +15,9 @@ ARCH_FILE = {
 ARCH_FILES = set(ARCH_FILE.values())
 # architectures on which the architecture-independent layers (generic kernels, operators, API) are proved in the quick tier
 QUICK_BASE = {"sse2", "avx512bw"}
+# the two largest families prove the architecture-independent layers on sse2 only in the quick tier (the 64-lane instantiations of the
+# generic kernels alone need more than the quick budget); avx512bw is covered there by its own kernels and by the thorough tier
+QUICK_BASE_BY_PROP = {"C01": {"sse2"}, "C05": {"sse2"}}
 
 C01_OPS = ["add", "sub", "mul", "neg", "abs", "min", "max", "incr", "decr", "incr_if", "decr_if", "fma", "fms", "fnma", "fnms", "div", "mod",
            "sign", "sadd", "ssub", "avg", "avgr"]
@@ -83,8 +86,9 @@ def quick_post_filter(pid):
         if base in ARCH_FILES:
             return base == own
         if base in ("xsimd_api.hpp", "xsimd_batch.hpp"):
-            return fn.aid == "sse2" or (fn.aid == "avx512bw" and fn.tid == "i8")   # forwarding layers: one vector-mask and one k-mask shape
-        if fn.aid in QUICK_BASE:
+            return fn.aid == "sse2" or (fn.aid == "avx512bw" and fn.tid == "i8" and pid not in QUICK_BASE_BY_PROP)   # forwarding layers: one vector-mask and one k-mask shape
+        base_archs = QUICK_BASE_BY_PROP.get(pid, QUICK_BASE)
+        if fn.aid in base_archs:
             return True
         if any(os.path.basename(i.get("file", "")) == own for i in job.get("inlined", [])):
             return True
@@ -93,7 +97,7 @@ def quick_post_filter(pid):
         if fns:
             key = (fn.sig.qual, fn.kinds, fn.tid, os.path.basename(fn.file), fn.line)
             peers = sorted(g.aid for g in fns.values() if g.aid and (g.sig.qual, g.kinds, g.tid, os.path.basename(g.file), g.line) == key)
-            if peers and not any(a in QUICK_BASE for a in peers):
+            if peers and not any(a in base_archs for a in peers):
                 return fn.aid == peers[0]
         return False
     return f
@@ -254,7 +258,7 @@ def run_value_property(pid, tier, seed, only_archs=None, only_ops=None, only_typ
     rep.notes["element_types"] = types
     rep.notes["operations"] = ops
     rep.notes["tier_rule"] = ("quick: every kernel definition in an architecture's own header instantiated with that architecture; "
-                              "architecture-independent layers (generic kernels, operators, API) on %s" % sorted(QUICK_BASE)) if tier == "quick" \
+                              "architecture-independent layers (generic kernels, operators, API) on %s" % sorted(QUICK_BASE_BY_PROP.get(pid, QUICK_BASE))) if tier == "quick" \
         else "thorough: every instantiation reachable from the entries on all x86 architectures"
     return finish(rep, pid)
 
